@@ -16,13 +16,21 @@ import (
 	"verif/internal/wz"
 )
 
-// Operand-source variants. constN: operand N is an immediate constant of the function.
+// Operand-source variants:
+//
+//	param    every operand is a function parameter (v128: two i64 assembled by splat/replace_lane)
+//	mem      every operand is loaded from memory right before the instruction
+//	mem<i>   operand i is loaded from memory right before the instruction, the others are parameters
+//	const<i> operand i is an immediate constant (T.const / v128.const), the others are parameters
+//	splat0   operand 0 is <shape>.splat of a scalar parameter, the others are loaded from memory
 const (
-	vParam = "param"
-	vMem   = "mem"
+	vParam  = "param"
+	vMem    = "mem"
+	vSplat0 = "splat0"
 )
 
 func constVariant(i int) string { return "const" + strconv.Itoa(i) }
+func memVariant(i int) string   { return "mem" + strconv.Itoa(i) }
 
 // constIdx returns the operand index that is an immediate in the variant, or -1.
 func constIdx(variant string) int {
@@ -33,6 +41,95 @@ func constIdx(variant string) int {
 	return -1
 }
 
+// sources gives the source of each operand: 'p' parameter, 'm' memory, 'c' constant, 's' splat.
+func sources(variant string, n int) []byte {
+	src := make([]byte, n)
+	for i := range src {
+		src[i] = 'p'
+	}
+	switch {
+	case variant == vParam:
+	case variant == vMem:
+		for i := range src {
+			src[i] = 'm'
+		}
+	case variant == vSplat0:
+		for i := range src {
+			src[i] = 'm'
+		}
+		src[0] = 's'
+	case strings.HasPrefix(variant, "mem"):
+		i, _ := strconv.Atoi(variant[3:])
+		if i < n {
+			src[i] = 'm'
+		}
+	case strings.HasPrefix(variant, "const"):
+		i, _ := strconv.Atoi(variant[5:])
+		if i < n {
+			src[i] = 'c'
+		}
+	}
+	return src
+}
+
+func hasMem(src []byte) bool {
+	for _, c := range src {
+		if c == 'm' {
+			return true
+		}
+	}
+	return false
+}
+
+// variantsOf lists the variants generated for an instruction.
+func variantsOf(op *refnum.Op) []string {
+	v := []string{vParam, vMem}
+	if len(op.Params) > 1 {
+		for i := range op.Params {
+			v = append(v, memVariant(i))
+		}
+	}
+	for i := range op.Params {
+		v = append(v, constVariant(i))
+	}
+	return v
+}
+
+// splatOf: scalar type and splat sub-opcode for a vector shape.
+func splatOf(s refnum.Shape) (byte, uint32) {
+	switch s.LaneBits() {
+	case 8:
+		return wasmenc.I32, 0x0f
+	case 16:
+		return wasmenc.I32, 0x10
+	case 32:
+		return wasmenc.I32, 0x11
+	}
+	return wasmenc.I64, 0x12
+}
+
+// funcParams is the flattened parameter list of the one-instruction function.
+func funcParams(op *refnum.Op, src []byte) []byte {
+	var fp []byte
+	if hasMem(src) {
+		fp = append(fp, wasmenc.I32)
+	}
+	for j, p := range op.Params {
+		switch src[j] {
+		case 'p':
+			if p.T == refnum.V128 {
+				fp = append(fp, wasmenc.I64, wasmenc.I64)
+			} else {
+				fp = append(fp, byte(p.T))
+			}
+		case 's':
+			t, _ := splatOf(p.S)
+			fp = append(fp, t)
+		}
+	}
+	return fp
+}
+
 // instance is one generated one-instruction function of a module: the instruction's lane /
 // shuffle immediate and (const variants) the constant operand.
 type instance struct {
@@ -41,10 +138,10 @@ type instance struct {
 }
 
 const (
-	memPages  = 24
+	memPages  = 9
 	inBase    = 0
-	outBase   = 0x100000 // 1 MiB: room for 16384 tuples of up to 64 bytes
-	maxChunk  = 16384
+	outBase   = 0x60000 // room for 8192 tuples of three 16-byte operand slots
+	maxChunk  = 8192
 	slotBytes = 16
 )
 
@@ -109,13 +206,8 @@ func pushConst(b *wasmenc.B, t refnum.Type, v refnum.V) {
 //	        calls f<k> through the table and stores the results at outBase + 16*i
 func buildModule(op *refnum.Op, variant string, insts []instance) []byte {
 	m := &wasmenc.Module{}
-	ci := constIdx(variant)
-	var fp []byte
-	if variant == vMem {
-		fp = []byte{wasmenc.I32}
-	} else {
-		fp = flatTypes(op.Params, ci)
-	}
+	src := sources(variant, len(op.Params))
+	fp := funcParams(op, src)
 	fr := flatTypes([]refnum.Param{op.Result}, -1)
 	ft := m.AddType(fp, fr)
 	m.Mems = [][]byte{wasmenc.Limits(memPages, memPages, false)}
@@ -125,11 +217,14 @@ func buildModule(op *refnum.Op, variant string, insts []instance) []byte {
 	for k, in := range insts {
 		b := wasmenc.NewB()
 		local := uint32(0)
+		if hasMem(src) {
+			local = 1
+		}
 		for j, p := range op.Params {
-			switch {
-			case j == ci:
+			switch src[j] {
+			case 'c':
 				pushConst(b, p.T, in.Const)
-			case variant == vMem:
+			case 'm':
 				b.LocalGet(0)
 				if p.T == refnum.V128 {
 					b.FDMem(0, 4, uint32(slotBytes*j))
@@ -137,13 +232,19 @@ func buildModule(op *refnum.Op, variant string, insts []instance) []byte {
 					o, al := loadOp(p.T)
 					b.Mem(o, al, uint32(slotBytes*j))
 				}
-			case p.T == refnum.V128:
-				b.LocalGet(local).FD(0x12)      // i64x2.splat
-				b.LocalGet(local+1).FD(0x1e, 1) // i64x2.replace_lane 1
-				local += 2
-			default:
-				b.LocalGet(local)
+			case 's':
+				_, sp := splatOf(p.S)
+				b.LocalGet(local).FD(sp)
 				local++
+			default:
+				if p.T == refnum.V128 {
+					b.LocalGet(local).FD(0x12)      // i64x2.splat
+					b.LocalGet(local+1).FD(0x1e, 1) // i64x2.replace_lane 1
+					local += 2
+				} else {
+					b.LocalGet(local)
+					local++
+				}
 			}
 		}
 		b.Append(op.Enc).Raw(in.Imm...)
@@ -164,19 +265,24 @@ func buildModule(op *refnum.Op, variant string, insts []instance) []byte {
 	b.I32Const(outBase).LocalSet(4)
 	b.Block().Loop()
 	b.LocalGet(2).LocalGet(1).Raw(wasmenc.OpI32GeU).BrIf(1)
-	if variant == vMem {
+	if hasMem(src) {
 		b.LocalGet(3)
-	} else {
-		for j, p := range op.Params {
-			if j == ci {
-				continue
-			}
+	}
+	for j, p := range op.Params {
+		switch src[j] {
+		case 'p':
 			if p.T == refnum.V128 {
 				b.LocalGet(3).Mem(wasmenc.OpI64Load, 3, uint32(slotBytes*j))
 				b.LocalGet(3).Mem(wasmenc.OpI64Load, 3, uint32(slotBytes*j+8))
 			} else {
 				o, al := loadOp(p.T)
 				b.LocalGet(3).Mem(o, al, uint32(slotBytes*j))
+			}
+		case 's': // the scalar is lane 0 of the operand's slot
+			if t, _ := splatOf(p.S); t == wasmenc.I64 {
+				b.LocalGet(3).Mem(wasmenc.OpI64Load, 3, uint32(slotBytes*j))
+			} else {
+				b.LocalGet(3).Mem(wasmenc.OpI32Load, 2, uint32(slotBytes*j))
 			}
 		}
 	}
@@ -194,6 +300,22 @@ func buildModule(op *refnum.Op, variant string, insts []instance) []byte {
 	b.Br(0).End().End()
 	run := m.AddFunc([]byte{wasmenc.I32, wasmenc.I32}, nil, append([]byte{wasmenc.I32, wasmenc.I32, wasmenc.I32}, fr...), b.Bytes())
 	m.ExportFunc("run", run)
+	// sweep(x): (splat0 modules of two-operand instructions) for j < 8192:
+	//   out[j] = op(splat(x), v128.load(in + 16*j))   -- operand 1 vectors are packed 16 bytes apart
+	if variant == vSplat0 && len(op.Params) == 2 && op.Result.T == refnum.V128 && op.Imm == refnum.ImmNone {
+		t, sp := splatOf(op.Params[0].S)
+		b := wasmenc.NewB() // locals: 0=x 1=n 2=j(byte offset) 3=v(splat)
+		b.LocalGet(0).FD(sp).LocalSet(3)
+		b.Block().Loop()
+		b.LocalGet(2).LocalGet(1).Raw(wasmenc.OpI32GeU).BrIf(1)
+		b.LocalGet(2)
+		b.LocalGet(3).LocalGet(2).FDMem(0, 4, inBase).Append(op.Enc)
+		b.FDMem(0x0b, 4, outBase) // v128.store
+		b.LocalGet(2).I32Const(16).Raw(wasmenc.OpI32Add).LocalSet(2)
+		b.Br(0).End().End()
+		sw := m.AddFunc([]byte{t, wasmenc.I32}, nil, []byte{wasmenc.I32, wasmenc.V128}, b.Bytes())
+		m.ExportFunc("sweep", sw)
+	}
 	return m.Encode()
 }
 
@@ -265,7 +387,8 @@ func (o observed) String(op *refnum.Op) string {
 // direct calls f<k> once with the tuple's operands (mem variant: through memory).
 func (l *loaded) direct(k int, args []refnum.V) observed {
 	var flat []uint64
-	if l.variant == vMem {
+	src := sources(l.variant, len(args))
+	if hasMem(src) {
 		buf := make([]byte, slotBytes*len(args))
 		for j, a := range args {
 			binary.LittleEndian.PutUint64(buf[slotBytes*j:], a[0])
@@ -273,12 +396,10 @@ func (l *loaded) direct(k int, args []refnum.V) observed {
 		}
 		l.mod.Memory().Write(inBase, buf)
 		flat = []uint64{inBase}
-	} else {
-		ci := constIdx(l.variant)
-		for j, p := range l.op.Params {
-			if j == ci {
-				continue
-			}
+	}
+	for j, p := range l.op.Params {
+		switch src[j] {
+		case 'p':
 			if p.T == refnum.V128 {
 				flat = append(flat, args[j][0], args[j][1])
 			} else if p.T == refnum.I32 || p.T == refnum.F32 {
@@ -286,6 +407,13 @@ func (l *loaded) direct(k int, args []refnum.V) observed {
 			} else {
 				flat = append(flat, args[j][0])
 			}
+		case 's':
+			bits := p.S.LaneBits()
+			x := args[j][0]
+			if bits < 64 {
+				x &= 1<<uint(bits) - 1
+			}
+			flat = append(flat, x)
 		}
 	}
 	res, out := wz.SafeCall(ctx, l.fs[k], flat...)
